@@ -48,9 +48,14 @@ Definition s_render (st : sstate) (maxcol maxrow : Z) (ob : cobs) : result (ssta
   let pad_width := if (canv_cols <=? maxcol) && (0 <? maxcol - canv_cols) then maxcol - canv_cols else 0 in
   (* if canv_rows <= maxrow and (fill_height := maxrow - canv_rows) > 0: canv.pad_trim_top_bottom(0, fill_height) *)
   let fill_height := if (canv_rows <=? maxrow) && (0 <? maxrow - canv_rows) then maxrow - canv_rows else 0 in
-  (* if canv_cols <= maxcol and canv_rows <= maxrow: return canv     -- no attribute is touched *)
+  (* if canv_cols <= maxcol and canv_rows <= maxrow:
+         self._trim_top = 0; self._scroll_action = None
+         self._forward_keypress = True if canv_full.cursor is not None else ow.selectable()
+         return canv *)
   if (canv_cols <=? maxcol) && (canv_rows <=? maxrow) then
-    Ok (st, View 0 canv_rows fill_height pad_width 0 (c_cursor ob))
+    let fwd := match c_cursor ob with Some _ => true | None => c_selectable ob end in
+    Ok (SState 0 ANone fwd (old_cursor st) (rows_cached st),
+        View 0 canv_rows fill_height pad_width 0 (c_cursor ob))
   else
     (* self._adjust_trim_top(canv, size): canv is the padded canvas *)
     let padded_rows := canv_rows + fill_height in
